@@ -143,6 +143,11 @@ def sample_spec_tangent(spec, rng, regime, ang=None):
     return v
 
 
+# hook set by contracts/taylor.py: prover(ctx, margin_polynomial, decision) -> True when the tracer's assumed answer to a
+# validity test ("within the threshold") follows from the precondition and the path's other decisions
+ASSUMPTION_PROVER = None
+
+
 class PathCtx:
     def __init__(self, rep, label, path, inputs, native=None, seed=0, exact_valid=True):
         """rep: core.Report; label: obligation prefix; inputs: list of Inp;
@@ -189,6 +194,13 @@ class PathCtx:
                         raise Undecided("%s: auto-valid assumption contradicted on path %s (a normalisation test that the tracer "
                                         "answered 'within threshold' is false under the precondition)" % (self.label, self.path.key))
                     return False
+            elif d.is_const == 2 and ASSUMPTION_PROVER is not None and ASSUMPTION_PROVER(self, p, d):
+                # the assumed answer is implied by the precondition and the earlier decisions (interval bound)
+                key = "%s/assumed_validity_test_holds" % self.label
+                if key not in self.__dict__.setdefault("_av_proved", set()):
+                    self._av_proved.add(key)
+                    self.rep.ok("%s[%d]" % (key, len(self._av_proved)), "TAYLOR", "interval-bound",
+                                detail={"path": self.path.key, "margin": str(p)[:160]})
             elif d.is_const == 2 and not getattr(self, "_av_noted", False):
                 # the tracer assumed "within the validity threshold" but the normal form cannot prove it
                 # (e.g. a small-angle exp is unit-norm only up to O(theta^2)): what is proved on this path
